@@ -236,6 +236,8 @@ def library_blocks(rng, widths, frac):
     out = []
     with quiet():
         for cfg in library.catalogue(rng, widths=widths):
+            if 'alias' in cfg['c']:
+                continue        # two block ports on one wire: the netlist record has one driving pin per wire
             if rng.random() > frac:
                 continue
             try:
